@@ -72,7 +72,7 @@ def add_canary(text, meta, only=None):
             continue
         bpos = toks[fn["body"]].pos
         if only is None:
-            seg = seg[:bpos + 1] + " proof { assert(false); } /*@CANARY:%s*/\n" % fid + seg[bpos + 1:]
+            seg = seg[:bpos + 1] + " proof { assert(false); } /*@CANARY:%s*/ " % fid + seg[bpos + 1:]
         else:
             head = seg[:bpos]
             has_ens = re.search(r"\bensures\b", head) is not None
